@@ -235,6 +235,30 @@ func TestC07(t *testing.T) {
 			}
 			c.Ev.MarkExhaustive(fmt.Sprintf("%d stdin byte strings that are not valid UTF-8 (truncated, lone continuation, overlong, surrogate, out of range, NUL) x %d uses of the value read", len(inputs), len(forms)))
 		})
+		// script files of every small shape through the real executable: empty, one byte of every value, two-
+		// and three-byte heads of the usual signatures, only blanks / newlines / a comment, with and without a
+		// final newline.  Any exit status other than 0, 65 or 70, or a Go trace, is abnormal.
+		c.Sub("file-shapes", func(s *Sub) {
+			var k int64
+			var files []string
+			files = append(files, "", "\n", "\r\n", " ", "\t", "//", "// c", "/**/", "/* c */\n", ";", "1", "1;", "\"", "\"a\"", "\xef", "\xef\xbb", "\xef\xbb\xbf", "\xef\xbb\xbf\n", "\xef\xbb\xbf"+bn.KwPrint+" 1;", "\xff\xfe", "\xfe\xff", "\x00", "\x00\x00\x00", "#!", "#!/usr/bin/borno\n"+bn.KwPrint+" 1;\n", "\x1a", "\x04")
+			for b := 0; b < 256; b++ {
+				files = append(files, string([]byte{byte(b)}), bn.KwPrint+" 1;\n"+string([]byte{byte(b)}))
+			}
+			for _, f := range files {
+				k++
+				if !c.Mine(k) {
+					continue
+				}
+				cr := c.CLIScript(f, "", 60*time.Second)
+				c.Ev.EnumCase("file-shapes", true, func() string { return fmt.Sprintf("%q", f) }, "file-shape")
+				if cr.TimedOut || (cr.Status != 0 && cr.Status != 65 && cr.Status != 70) || strings.Contains(cr.Stderr, "goroutine ") || strings.Contains(cr.Stderr, "panic:") || strings.Contains(cr.Stderr, "fatal error") {
+					s.Violation(Replay{Check: "cli", Sig: "cli-abnormal", Source: f, Note: "file-shapes", Expected: "exit status 0, 65 or 70 without a host-runtime banner",
+						Observed: fmt.Sprintf("status=%d timedOut=%v stderr=%q", cr.Status, cr.TimedOut, clip(cr.Stderr, 400))})
+				}
+			}
+			c.Ev.MarkExhaustive(fmt.Sprintf("%d script files: empty, every single byte alone and behind a statement, signature heads, blank- and comment-only files", len(files)))
+		})
 		c.Sub("deep-nesting", func(s *Sub) {
 			if c.Shard != 0 {
 				return
